@@ -320,21 +320,28 @@ def check_copy(ctx):
         ok = v is not None and dotted(A.strip_casts(v)) == attr
         ctx.check(R, fn, "copy forwards %s" % kw, ok, "%s=%s" % (kw, A.unparse(v)[:50] if v is not None else "missing"), key="copy:" + kw)
     v = A.get_arg(c, None, "t_ref")
-    leaves = {}
-    if v is not None:
-        for terms, leaf in A.ifexp_terms(v):
-            leaves[frozenset(A.term_strings(terms))] = leaf
-    has = any(canon(l) == "self.t_ref" for l in leaves.values())
+    has, okf = tref_preserved(v)
     ctx.check(R, fn, "copy forwards t_ref", has, "t_ref=%s: the copy silently takes the earliest time as its reference epoch" % (A.unparse(v)[:50] if v is not None else "missing"), key="copy:t_ref")
-    if has and len(leaves) > 1:
-        okf = all((A.const_value(l) is False) == ("+self.t_ref is None" in k) for k, l in leaves.items())
-        ctx.check(R, fn, "a disabled reference epoch stays disabled", okf, "t_ref=%s" % A.unparse(v)[:60], key="copy:disabled")
+    if has:
+        ctx.check(R, fn, "a disabled reference epoch stays disabled", okf, "t_ref=%s: a stored t_ref of None means 'disabled', but None handed to the constructor means 'use the earliest time'" % A.unparse(v)[:60], key="copy:disabled")
     cp = ctx.prog.func(DT, "RVData.copy", R)
     rets = [s for s in A.walk_local(cp) if isinstance(s, ast.Return)]
     ctx.check(R, cp, "copy() delegates to __copy__", len(rets) == 1 and canon(rets[0].value) == canon(parse("self.__copy__()")), "copy() returns `%s`" % (A.unparse(rets[0].value) if rets else None), key="copy()", nontrivial=False)
     ln = ctx.prog.func(DT, "RVData.__len__", R)
     rets = [s for s in A.walk_local(ln) if isinstance(s, ast.Return)]
     ctx.check(R, ln, "len = number of stored velocities", len(rets) == 1 and canon(rets[0].value) in (canon(parse("len(self.rv.value)")), canon(parse("len(self.rv)"))), "len returns `%s`" % (A.unparse(rets[0].value) if rets else None), key="len", nontrivial=False)
+
+
+def tref_preserved(v):
+    """(forwards self.t_ref?, keeps a disabled epoch disabled?) for the t_ref argument of a reconstruction RVData(..., t_ref=v):
+    the stored value None means "disabled" and must be handed over as False (None would select the earliest time)."""
+    leaves = {}
+    if v is not None:
+        for terms, leaf in A.ifexp_terms(v):
+            leaves[frozenset(A.term_strings(terms))] = leaf
+    has = any(canon(l) == "self.t_ref" for l in leaves.values())
+    okf = has and len(leaves) > 1 and all((A.const_value(l) is False) == ("+self.t_ref is None" in k) for k, l in leaves.items())
+    return has, okf
 
 
 def run(ctx):
